@@ -455,7 +455,7 @@ class Flow:
                     return self.self_attrs[attr]
                 if self.self_cls:
                     found, val = self.repo.class_const(self.self_cls, attr)  # a class-level constant, through the MRO
-                    if found and (isinstance(val, (bool, int, str)) or val is None):
+                    if found and (isinstance(val, (bool, int, str)) or val is None or (isinstance(val, tuple) and all(isinstance(x, (bool, int, str)) for x in val))):
                         return val
                 if self.self_cls and self.repo.resolve_method(self.self_cls, attr):
                     return Bound(base, attr)
